@@ -44,7 +44,7 @@ fn str_value(bytes: &[u8], safe: bool) -> Value {
     }
 }
 
-// @verif props=C02 tier=quick cap=900 group=core fns=filters::escape,write_escaped,State::auto_escape
+// @verif props=C02 tier=thorough cap=3000 group=core fns=filters::escape,write_escaped,State::auto_escape
 /// The escape filter, for EVERY 1-2 byte string over {< > " ' & a}, marked safe or not, in a scope with
 /// escaping on or off: a safe input comes back unchanged (not escaped a second time), an unsafe input comes
 /// back marked safe and without any raw metacharacter (the filter falls back to HTML when escaping is off).
@@ -121,7 +121,7 @@ macro_rules! replace_safety_harness {
     };
 }
 
-// @verif-block props=C02 tier=quick cap=1200 group=core doc=replace_filter_safety_flow_for_the_listed_safe/unsafe_assignment_of_(value,_search,_replacement),_value_and_replacement_one_symbolic_byte_over_{<_>_"_'_&_a},_escaping_on_or_off:_a_result_marked_safe_never_contains_a_raw_metacharacter_from_an_unsafe_input;_with_escaping_off_the_result_is_the_plain_replacement_and_not_marked_safe
+// @verif-block props=C02 tier=thorough cap=3000 group=core doc=replace_filter_safety_flow_for_the_listed_safe/unsafe_assignment_of_(value,_search,_replacement),_value_and_replacement_one_symbolic_byte_over_{<_>_"_'_&_a},_escaping_on_or_off:_a_result_marked_safe_never_contains_a_raw_metacharacter_from_an_unsafe_input;_with_escaping_off_the_result_is_the_plain_replacement_and_not_marked_safe
 replace_safety_harness!(c02_replace_unsafe_safe_unsafe, false, true, false);
 replace_safety_harness!(c02_replace_unsafe_unsafe_safe, false, false, true);
 replace_safety_harness!(c02_replace_unsafe_unsafe_unsafe, false, false, false); // tier=thorough
@@ -228,6 +228,9 @@ fn c01_slice_known_huge_count() {
     kani::cover!(true);
     core::mem::forget((r, state));
 }
+
+// (A tojson harness - group `json` - was tried: any harness from which `Serialize for Value` is reachable makes
+// kani-compiler 0.68 abort with the thread_local ICE described in DESIGN.md section 0; C16 stays not applicable.)
 
 #[cfg(test)]
 mod playback {
